@@ -30,6 +30,7 @@ func init() {
 		e.RSharedState()
 		e.RPerFileState()
 		e.RBufferReuse()
+		e.RPerFileReset()
 		e.RFragOrder()
 	})
 	register("C17", Meta{
